@@ -8,6 +8,9 @@ CONSTANTS
   CandZones = {"UTC", "America/New_York"}
   CandPathIds = {1}
   CandInstIds = {1}
+  HistZones = {"UTC"}
+  HistPathIds = {1}
+  HistInstIds = {1}
 INVARIANT Verdicts
 INVARIANT Drift
 POSTCONDITION Accepted
